@@ -310,6 +310,12 @@ Definition DropEff (f : N) (w w' : world) : Prop :=
   w_next w' = w_next w /\ w_files w' = removelast (w_files w) /\ w_models w' = w_models w /\
   forall i, w_nodes w' i = option_map (rename_file f (DEAD_FILE_BASE + w_next w)) (w_nodes w i).
 
+Lemma drop_file_eff f w r w' : drop_file f w = Val (r, w') -> DropEff f w w'.
+Proof.
+  unfold drop_file, DropEff. set (d := DEAD_FILE_BASE + w_next w). clearbody d. intros H. injection H as _ <-.
+  cbn [w_next w_files w_models w_nodes]. auto.
+Qed.
+
 (* ------------------------------------------------------------------ the residue of a rejected load *)
 Definition Residue (m fid : N) (fl : file) (w w' : world) : Prop :=
   exists w1 wM wR wK,
@@ -381,7 +387,114 @@ Proof.
         eapply (effR_try (RemEff fid)); [apply rem_e_remove_from_file|exact He1]. }
   destruct HS as (wM & HM & HR).
   exists w1, wM, w6, wK. split; [exact A1|]. split; [exact HM|]. split; [exact HR|]. split; [exact HK|].
-  unfold drop_file in H12. injection H12 as _ <-. repeat split; reflexivity.
+  eapply drop_file_eff; exact H12.
 Qed.
 
 End Reject.
+
+(* ------------------------------------------------------------------ the residue, component by component *)
+Definition rename_files (f d : N) (fs : list N) : list N := if set_mem f fs then set_add d (set_remove f fs) else fs.
+
+Record NodeResidue (fid d : N) (n n' : node) : Prop := mkNodeResidue {
+  rs_name : n_name n' = n_name n;
+  rs_type : n_type n' = n_type n;
+  rs_attrs : n_attrs n' = n_attrs n;
+  rs_comment : n_comment n' = n_comment n;
+  rs_parent : n_parent n' = n_parent n \/ (exists a, n_parent n' = PElem a) \/ n_parent n' = PNone;
+  rs_files : exists f1 f2, FilesEff fid (n_files n) f1 /\ FilesRem fid f1 f2 /\ n_files n' = rename_files fid d f2;
+  rs_content : exists c1, ContentEff (n_content n) c1 /\ ContentRem c1 (n_content n')
+}.
+
+Lemma removelast_snoc {A} (l : list A) x : removelast (l ++ [x]) = l.
+Proof. apply removelast_last. Qed.
+
+(* what was there before the rejected load: the bound only grows, the files are the same, every model record keeps its
+   root and file list and only loses index entries, every node keeps name, type, attributes and comment; its parent,
+   membership and content changed at most as the stages allow *)
+Theorem residue_components m fid fl w w' :
+  Residue m fid fl w w' ->
+  w_next w <= w_next w' /\ w_files w' = w_files w /\ Forall2 ModelRem (w_models w) (w_models w') /\
+  exists d, forall i, i < w_next w ->
+    match w_nodes w i, w_nodes w' i with
+    | Some n, Some n' => NodeResidue fid d n n'
+    | None, None => True
+    | _, _ => False
+    end.
+Proof.
+  intros (w1 & wM & wR & wK & (A1 & A2 & A3 & A4) & (M1 & M2 & M3 & M4) & (R1 & R2 & R3 & R4) & (K1 & K2 & K3 & K4 & K5) & (D1 & D2 & D3 & D4)).
+  cbn [w_next w_files w_models w_nodes] in *.
+  split; [lia|]. split; [rewrite D2, K2, R2, M2, A3; apply removelast_snoc|].
+  split; [rewrite D3, K3, <- A4, <- M3; exact R3|].
+  exists (DEAD_FILE_BASE + w_next wK). intros i Hi.
+  rewrite D4, (K4 i Hi). specialize (M4 i). specialize (R4 i). rewrite (A2 i Hi) in M4.
+  destruct (w_nodes w i) as [n|], (w_nodes wM i) as [n1|], (w_nodes wR i) as [n2|]; try contradiction; cbn [option_map]; auto.
+  destruct M4 as [E1 E2 E3 E4 E5 E6 E7]. destruct R4 as [F1 F2 F3 F4 F5 F6 F7].
+  unfold rename_file. constructor.
+  - destruct (set_mem fid (n_files n2)); cbn; congruence.
+  - destruct (set_mem fid (n_files n2)); cbn; congruence.
+  - destruct (set_mem fid (n_files n2)); cbn; congruence.
+  - destruct (set_mem fid (n_files n2)); cbn; congruence.
+  - assert (P : n_parent n2 = n_parent n \/ (exists a, n_parent n2 = PElem a) \/ n_parent n2 = PNone).
+    { destruct F5 as [F5|F5]; [rewrite F5; destruct E5 as [E5|E5]; auto|auto]. }
+    destruct (set_mem fid (n_files n2)); cbn; exact P.
+  - exists (n_files n1), (n_files n2). split; [exact E6|]. split; [exact F6|].
+    unfold rename_files. destruct (set_mem fid (n_files n2)); reflexivity.
+  - exists (n_content n1). split; [exact E7|]. destruct (set_mem fid (n_files n2)); cbn; exact F7.
+Qed.
+
+(* the same, read off the observation of C11 (Tree/Observe.v) *)
+Lemma nth_error_ids_below n k : (k < N.to_nat n)%nat -> nth_error (ids_below n) k = Some (N.of_nat k).
+Proof.
+  intros H. unfold ids_below. rewrite nth_error_map. rewrite (nth_error_nth' _ O) by (rewrite seq_length; exact H).
+  rewrite seq_nth by exact H. reflexivity.
+Qed.
+Lemma nth_error_observe w k : (k < N.to_nat (w_next w))%nat -> nth_error (o_nodes (observe w)) k = Some (w_nodes w (N.of_nat k)).
+Proof. intros H. unfold observe. cbn [o_nodes]. rewrite nth_error_map, nth_error_ids_below by exact H. reflexivity. Qed.
+
+Theorem residue_observable m fid fl w w' :
+  Residue m fid fl w w' ->
+  o_next (observe w) <= o_next (observe w') /\
+  o_files (observe w') = o_files (observe w) /\
+  Forall2 ModelRem (o_models (observe w)) (o_models (observe w')) /\
+  exists d, forall k, (k < N.to_nat (o_next (observe w)))%nat ->
+    match nth_error (o_nodes (observe w)) k, nth_error (o_nodes (observe w')) k with
+    | Some (Some n), Some (Some n') => NodeResidue fid d n n'
+    | Some None, Some None => True
+    | _, _ => False
+    end.
+Proof.
+  intros H. destruct (residue_components m fid fl w w' H) as (H1 & H2 & H3 & d & H4).
+  split; [exact H1|]. split; [exact H2|]. split; [exact H3|]. exists d. intros k Hk. cbn [observe o_next] in Hk.
+  rewrite (nth_error_observe w k Hk), (nth_error_observe w' k) by lia.
+  apply H4. lia.
+Qed.
+
+(* ------------------------------------------------------------------ AutosarModel::load_buffer *)
+Section RejectBuffer.
+Variable T : tables.
+Variables tab_el tab_at tab_en : nametab.
+Variable check_fn : N -> list N -> res bool.
+Variable float_parse : list N -> option N.
+Variables LATEST defref : N.
+
+Theorem load_reject_residue m buffer filename strict w w' :
+  m_load_buffer T tab_el tab_at tab_en check_fn float_parse LATEST defref m buffer filename strict w
+    = Val (ER InvalidFileMerge, w') ->
+  exists root st,
+    Parser.load strict T tab_el tab_at tab_en check_fn float_parse buffer = Val (Parser.Ret root st) /\
+    Residue m (N.of_nat (List.length (w_files w))) (mkFile m filename (Parser.p_version st) (Parser.p_standalone st)) w w'.
+Proof.
+  unfold m_load_buffer. intros H.
+  apply wbind_inv in H as [(x & w1 & H1 & H) | (e' & H1 & _)]; [|apply get_model_inv in H1 as (? & _ & [=] & _)].
+  apply get_model_inv in H1 as (x' & _ & _ & ->).
+  apply wbind_inv in H as [(w0 & w2 & H2 & H) | (e' & H2 & _)]; [|apply wget_inv in H2 as ([=] & _)].
+  apply wget_inv in H2 as (E2 & ->). injection E2 as ->.
+  destruct (existsb _ (m_files x)); [apply wfail_inv in H as ([=] & _)|].
+  destruct (Parser.load _ _ _ _ _ _ _ _) as [[root st|pe st]| |];
+    [|apply wfail_inv in H as ([=] & _)|discriminate H|discriminate H].
+  exists root, st. split; [reflexivity|].
+  apply wbind_inv in H as [(fo & w3 & H3 & H) | (e' & H3 & [= <-])]; [apply wret_inv in H as ([=] & _)|].
+  eapply load_parsed_reject_residue; eauto.
+Qed.
+
+End RejectBuffer.
